@@ -6,7 +6,7 @@ from mirlib import callee_name, callee_of, op_const, op_place
 import mustlib as M
 import depsrc
 from astlib import find_all, find_first, show, show_pat
-from rules.common import flat, flatp, has
+from rules.common import flat, flatp, has, same
 
 EXPLANATION = (
     "Static analysis; nothing executed. Decided structural clauses: (R1) walk completeness: find_used_datakey matches every "
@@ -108,7 +108,7 @@ def r1_walk(ctx, prog):
         r.viol("R1:find_used_datakey#keys", "not every key of a level is visited", file=fn.file, line=fn.line)
     fn2 = ast.fn(PL, "iter_vars", impl_self="InterpolationKeys")
     t2 = flatp(show(fn2.body)) if fn2 else ""
-    if t2 == "{self.variables.iter.map|key,value|key.clone,value}":
+    if same(t2, "{self.variables.iter.map|key,value|key.clone,value}"):
         r.inst("InterpolationKeys::iter_vars", "all variables")
     else:
         r.viol("R1:iter_vars", "iter_vars is `%s`" % t2, file=PL)
@@ -151,13 +151,13 @@ def r1_walk(ctx, prog):
             r.viol("R1:get_icu_keys_inner", "not every namespace is walked into the accumulator", file=b.file, line=b.line)
     fn4 = ast.fn(BL, "get_icu_keys", impl_self="TranslationsInfos")
     t4 = flatp(show(fn4.body)) if fn4 else ""
-    if t4 == "{letmutused_icu_keys=HashSet::new;self.get_icu_keys_inner&mutused_icu_keys;datakey::get_keysused_icu_keys}":
+    if same(t4, "{letmutused_icu_keys=HashSet::new;self.get_icu_keys_inner&mutused_icu_keys;datakey::get_keysused_icu_keys}"):
         r.inst("get_icu_keys", "fresh set -> walk -> every option expanded")
     else:
         r.viol("R1:get_icu_keys", "is `%s`" % t4, file=BL)
     fn5 = ast.fn(DK, "get_keys")
     t5 = flatp(show(fn5.body)) if fn5 else ""
-    if t5 == "{used_icu_keys.into_iter.flat_mapOptions::into_data_keys}":
+    if same(t5, "{used_icu_keys.into_iter.flat_mapOptions::into_data_keys}"):
         r.inst("get_keys", "flat_map(into_data_keys) over every option")
     else:
         r.viol("R1:get_keys", "is `%s`" % t5, file=DK)
@@ -344,7 +344,7 @@ def r4_locales(ctx, prog):
     fn = ast.fn(BL, "get_locales", impl_self="TranslationsInfos")
     t = flatp(show(fn.body)) if fn else ""
     b = prog.body("leptos_i18n_build::TranslationsInfos::parse_inner")
-    if t == "{self.locales_names.iter.cloned}":
+    if same(t, "{self.locales_names.iter.cloned}"):
         r.inst("get_locales", "the stored list, unfiltered")
     else:
         r.viol("R4:get_locales", "get_locales is `%s`: not the list taken from the configuration" % t, file=BL)
@@ -373,7 +373,7 @@ def r4_locales(ctx, prog):
             r.viol("R4:parse_inner#locales_names", "the stored locale list does not come (unfiltered) from the configuration (%s)" % (bad or "provenance"), file=b.file, line=b.line)
     fn = ast.fn(BL, "get_locales_langids", impl_self="TranslationsInfos")
     t = flatp(show(fn.body)) if fn else ""
-    if t == "{self.get_locales.map|locale|locale.parse::<LanguageIdentifier>.unwrap}":
+    if same(t, "{self.get_locales.map|locale|locale.parse::<LanguageIdentifier>.unwrap}"):
         r.inst("get_locales_langids", "every reported locale, parsed (validated in parse_inner, see C09)")
     else:
         r.viol("R4:get_locales_langids", "is `%s`" % t, file=BL)
